@@ -11,6 +11,23 @@ legs
   sdres     exhaustive: remote Link MIU 128..2175 x aggregation on/off x
             SDRES backlog 0..600 on one controller (thorough; a seeded slice
             of MIUs with the backlogs around the frame capacities in quick)
+  announce  exhaustive: one controller against a peer that exists as octets
+            only; the MIUX TLV that announces the limit sits in the general
+            bytes (local side NFC-DEP Initiator / Target), in the peer's
+            CONNECT or in the peer's CC, with every one of the 32 settings of
+            its five reserved bits x 11 bit numbers at the ends and in the
+            middle of the range x aggregation on/off; a fixed probe then
+            fills the queues around the announced limit
+  octets    generated: the same set-up with drawn parameter strings in all
+            three positions at once (VERSION / MIUX / WKS / LTO / OPT / RW /
+            SN TLVs with reserved bits set, TLVs of unknown or foreign type
+            interleaved, TLVs repeated, any order) and a drawn history of
+            sendto / send / acknowledgements / peer data / SDREQ backlog /
+            resolve() on top
+
+"Announced" is always what vlib/ref_llcp reads from the octets (MIU = 128 +
+the 11 bit MIUX number, reserved bits ignored, LLCP 1.3 4.5.2), never what the
+library's own decoder made of them.
 
 Oracles per transmitted frame (sender S, receiver R):
   info-exceeds-link-miu   information field (bytes after the 2 byte header,
@@ -28,17 +45,19 @@ Oracles per transmitted frame (sender S, receiver R):
   oversize-accepted       sendto()/send() of more than the MIU is refused
 """
 import os
+import struct
 
 from hypothesis import strategies as st
 
+import nfc.dep
 import nfc.llcp
 import nfc.llcp.llc as llc_mod
 import nfc.llcp.pdu as pdu
 
 from vlib import ref_llcp as ref, vsched
 from vlib.engine import HarnessError, Leg, Violation, unexpected
-from vlib.llcpair import (DATA_LINK_CONNECTION, LOGICAL_DATA_LINK, LlcPair,
-                          observe, other)
+from vlib.llcpair import (DATA_LINK_CONNECTION, LOGICAL_DATA_LINK, Box,
+                          LlcPair, flat, observe, other)
 
 PROPERTY = "C10"
 LEVEL = "exploration"
@@ -54,6 +73,12 @@ ASSUMPTIONS = [
     "is injected straight into dispatch() to load the queues",
     "which SAPs exist at the receiver is read from its address table "
     "(the table itself is C17's subject)",
+    "announce/octets: nfc.dep is replaced by a stub whose activate() hands "
+    "the peer's general bytes to LogicalLinkController.activate(); the peer "
+    "is conformant apart from what it puts into reserved bits and unknown "
+    "TLVs (its frames respect the local MIU and receive window); where a "
+    "peer repeats the MIUX TLV with different numbers the largest one is "
+    "taken as the limit (the specification does not say which one counts)",
 ]
 
 # Confirmed-defect classes that can be avoided by construction.  Empty in the
@@ -942,6 +967,702 @@ def enum_sdres(tier, seed):
                     yield {"miu": miu, "agf": agf, "n": [n, n, 1]}
 
 
+# ------------------------------------- the peer's announcements as octets
+# One controller; the peer exists as octets only.  The limits are read from
+# those octets by vlib/ref_llcp (announced_mius), never by nfc.llcp.pdu.
+T_VERSION, T_MIUX, T_WKS, T_LTO, T_RW, T_SN, T_OPT = 1, 2, 3, 4, 5, 6, 7
+GB_MAX = 44     # ATR_REQ / ATR_RES: <= 47 general bytes, 3 are the magic number
+TLV_MAX = 100   # parameter string of the peer's CONNECT / CC PDU
+
+
+def tlv_octets(tlvs):
+    return b"".join(bytes([t, len(v)]) + bytes(v) for t, v in tlvs)
+
+
+def frame_octets(ptype, dsap, ssap, info=b""):
+    return struct.pack(">H", dsap << 10 | ptype << 6 | ssap) + bytes(info)
+
+
+class Limit(object):
+    """the MIU a parameter string announces.  hi: nothing larger may be sent
+    under any reading; lo: what may be sent under every reading (they differ
+    only when the peer repeats the MIUX TLV with different numbers)"""
+
+    def __init__(self, octets):
+        vals = ref.announced_mius(octets)
+        self.hi, self.lo, self.n = max(vals), min(vals), len(vals)
+
+
+def stub_mac(role, gb):
+    """stands in for nfc.dep: activation succeeded, the peer's ATR carried
+    these general bytes"""
+    base = nfc.dep.Initiator if role == "initiator" else nfc.dep.Target
+
+    class Mac(base):
+        def __init__(self):
+            self.rwt = 4096 / 13.56E6 * 2 ** 8
+            self.sent_gb = None
+
+        def activate(self, *args, **options):
+            self.sent_gb = options.get("gbi", options.get("gbt"))
+            return bytearray(gb)
+    return Mac()
+
+
+class Solo(object):
+    def __init__(self, case, ctx):
+        self.ctx = ctx
+        self.stats = Stats()
+        self.sched = vsched.Sched((), seed=0)
+        vsched.activate(self.sched)
+        self.llc = llc_mod.LogicalLinkController(
+            miu=case["miu"], agf=bool(case["agf"]), sec=False)
+        self.link = None            # Limit of the general bytes
+        self.ldl = []
+        self.listener = None
+        self.conns = []
+        self.connects = []          # CONNECT PDUs the local side transmitted
+        self.boxes = []
+        self.last = None
+
+    def call(self, fn, name):
+        box = Box(name)
+
+        def run():
+            try:
+                box.value = fn()
+            except Exception as e:
+                box.exc = e
+            box.done = True
+        self.boxes.append(box)
+        self.sched.spawn(run, name)
+        self.sched.settle()
+        return box
+
+    def fit(self, hdr):
+        if self.last is None:
+            return None
+        return self.link.hi - (2 + 2 + self.last) - 3
+
+    def conn(self, lsap, rsap):
+        for c in self.conns:
+            if c["l"] == lsap and c["r"] == rsap and not c["dead"]:
+                return c
+        return None
+
+    def live(self, i):
+        live = [c for c in self.conns if not c["dead"]]
+        return live[i % len(live)] if live else None
+
+    def close(self):
+        self.sched.shutdown()
+        vsched.activate(None)
+
+
+def solo_check(w):
+    for name, exc in w.sched.failures():
+        raise unexpected(exc, oracle="thread-died")
+    for box in w.boxes:
+        if box.exc is not None and not isinstance(box.exc, nfc.llcp.Error):
+            raise unexpected(box.exc, oracle="helper-call-raised")
+
+
+def solo_inject(w, octets):
+    """the peer transmits these octets (a conformant peer: well-formed and
+    within the MIU the local side announced)"""
+    try:
+        ref.decode(octets)
+    except ref.RefReject as rr:
+        raise HarnessError("peer octets %s: %s" % (octets.hex(), rr))
+    if ref.info_len(octets) > w.llc.cfg["recv-miu"]:
+        raise HarnessError("peer frame larger than the local MIU")
+    try:
+        q = pdu.decode(octets)
+    except Exception as e:
+        raise unexpected(e, detail="decode of the peer's %s"
+                         % octets.hex()[:120])
+    try:
+        w.llc.dispatch(q)
+    except (Violation, HarnessError, vsched.Abort, vsched.StepBudget):
+        raise
+    except Exception as e:
+        raise unexpected(e, detail="dispatch of the peer's %s"
+                         % octets.hex()[:120])
+    w.sched.settle()
+    solo_check(w)
+
+
+def solo_x(w):
+    """the local side's turn on the link: one frame, judged"""
+    try:
+        p = w.llc.collect()
+    except (Violation, HarnessError, vsched.Abort, vsched.StepBudget):
+        raise
+    except Exception as e:
+        raise unexpected(e, detail="collect()")
+    w.last = None
+    if p is None:
+        w.sched.settle()
+        solo_check(w)
+        return None
+    try:
+        raw = pdu.encode(p)
+    except Exception as e:
+        raise unexpected(e, detail="encode of collected %s" % p.name)
+    if len(p) != len(raw):
+        raise Violation("len-mismatch", "len(%s frame)=%d, encoding %d"
+                        % (p.name, len(p), len(raw)))
+    try:
+        r = ref.decode(raw)
+    except ref.RefReject as rr:
+        raise Violation("frame-not-wellformed", "%s: %s"
+                        % (raw.hex()[:200], rr))
+    judge_solo(w, raw, r)
+    w.sched.settle()
+    solo_check(w)
+    return r
+
+
+def judge_solo(w, raw, r):
+    link, st_ = w.link, w.stats
+    pdus = flat(r)
+    info = ref.info_len(raw)
+    if info > link.hi:
+        raise Violation(
+            "info-exceeds-link-miu", "%s frame with %d byte information "
+            "field, the peer's general bytes announce a Link MIU of %d "
+            "(library works with %s); content %s"
+            % (r["type"], info, link.hi, w.llc.cfg.get("send-miu"),
+               summary(pdus)))
+    for q in pdus:
+        t = q["type"]
+        c = w.conn(q["ssap"], q["dsap"])
+        if t == "UI" and len(q["data"]) > link.hi:
+            raise Violation("ui-exceeds-link-miu", "UI payload %d > %d"
+                            % (len(q["data"]), link.hi))
+        if t == "I":
+            if c is None:
+                st_["i-unknown-connection"] += 1
+                continue
+            if len(q["data"]) > c["lim"].hi:
+                raise Violation(
+                    "i-exceeds-connection-miu", "I payload %d on %d->%d, the "
+                    "peer's %s announced a connection MIU of %d"
+                    % (len(q["data"]), q["ssap"], q["dsap"], c["pos"],
+                       c["lim"].hi))
+            if c["lim"].hi - len(q["data"]) <= 8:
+                st_["i-near-connection-miu"] += 1
+            if len(q["data"]) == c["lim"].hi:
+                st_["i-exactly-connection-miu"] += 1
+            c["sent"] += 1
+            c["nr_local"] = q["nr"]
+        elif t in ("RR", "RNR") and c is not None:
+            c["nr_local"] = q["nr"]
+        elif t == "CONNECT":
+            w.connects.append(q)
+        elif t == "CC" and c is not None:
+            c["rw_local"], c["miu_local"] = q["rw"], q["miu"]
+        elif t in ("DM", "DISC", "FRMR") and c is not None:
+            c["dead"] = True
+            st_["connection-ended"] += 1
+    st_["frames"] += 1
+    for q in pdus:
+        st_["pdu:" + q["type"]] += 1
+    if len(pdus) >= 2:
+        st_["agf>=2"] += 1
+    if link.hi - info <= 8:
+        st_["near-miu"] += 1
+    if link.hi == info:
+        st_["exactly-miu"] += 1
+    if sum(len(q["sdres"]) for q in pdus if q["type"] == "SNL") >= 30:
+        st_["sdres>=30"] += 1
+
+
+def solo_listen(w, spec):
+    s = nfc.llcp.Socket(w.llc, DATA_LINK_CONNECTION)
+    s.setsockopt(nfc.llcp.SO_RCVBUF, spec["rw"])
+    s.setsockopt(nfc.llcp.SO_RCVMIU, spec["smiu"])
+    name = None if spec["name"] is None else NAMES[spec["name"] % len(NAMES)]
+    s.bind(name)
+    s.listen(8)
+    lst = {"sock": s, "name": name, "accepted": []}
+
+    def acceptor():
+        while True:
+            try:
+                lst["accepted"].append(s.accept())
+            except nfc.llcp.Error:
+                return
+    w.call(acceptor, "accept")
+    w.listener = lst
+
+
+def new_conn(pos, lsap, rsap, tlvs, sock):
+    return {"pos": pos, "l": lsap, "r": rsap, "lim": Limit(tlv_octets(tlvs)),
+            "sock": sock, "sent": 0, "nr_local": 0, "peer_ns": 0,
+            "rw_local": None, "miu_local": None, "dead": False}
+
+
+def solo_inbound(w, spec):
+    """the peer's CONNECT octets arrive at the listening socket (by address,
+    or by name when the parameter string has an SN TLV)"""
+    lst = w.listener
+    lsap, rsap = lst["sock"].getsockname(), spec["rsap"]
+    tlvs = spec["tlvs"]
+    if w.conn(lsap, rsap) is not None:
+        return
+    byname = any(t == T_SN for t, v in tlvs)
+    solo_inject(w, frame_octets(4, 1 if byname else lsap, rsap,
+                                tlv_octets(tlvs)))
+    for acc in lst["accepted"]:
+        if acc.getpeername() == rsap and \
+                not any(c["sock"] is acc for c in w.conns):
+            w.conns.append(new_conn("CONNECT", lsap, rsap, tlvs, acc))
+            w.stats["connections"] += 1
+            return
+    w.stats["inbound-not-accepted"] += 1
+
+
+def solo_outbound(w, spec):
+    """connect() at the local side; the peer answers the CONNECT PDU with
+    these CC octets"""
+    s = nfc.llcp.Socket(w.llc, DATA_LINK_CONNECTION)
+    s.setsockopt(nfc.llcp.SO_RCVBUF, spec["rw"])
+    s.setsockopt(nfc.llcp.SO_RCVMIU, spec["smiu"])
+    rsap = spec["rsap"]
+    dest = "urn:nfc:sn:verif-%d" % rsap if spec["byname"] else rsap
+    box = w.call(lambda: s.connect(dest), "connect")
+    lsap = s.getsockname()
+    q = None
+    for _ in range(6):
+        q = next((x for x in w.connects if x["ssap"] == lsap), None)
+        if q is not None or box.done:
+            break
+        solo_x(w)
+    if q is None:
+        w.stats["connect-not-sent"] += 1
+        return
+    w.connects.remove(q)
+    c = new_conn("CC", lsap, rsap, spec["tlvs"], s)
+    c["rw_local"], c["miu_local"] = q["rw"], q["miu"]
+    w.conns.append(c)
+    solo_inject(w, frame_octets(6, lsap, rsap, tlv_octets(spec["tlvs"])))
+    if not box.done or box.exc is not None:
+        # not this property's subject; the case goes on without it
+        c["dead"] = True
+        w.stats["connect-failed"] += 1
+        return
+    w.stats["connections"] += 1
+
+
+def solo_sendto(w, i, kind, val, dsap):
+    while len(w.ldl) <= i % 3:
+        s = nfc.llcp.Socket(w.llc, LOGICAL_DATA_LINK)
+        s.bind()
+        w.ldl.append(s)
+    s = w.ldl[i % 3]
+    lim = w.link
+    n = size_for(kind, val, lim.hi, w.fit(2))
+    try:
+        ok = s.sendto(bytes([val & 255]) * n, 2 + dsap % 62,
+                      nfc.llcp.MSG_DONTWAIT)
+    except nfc.llcp.Error as err:
+        if err.errno == E.EMSGSIZE and n > lim.lo:
+            w.stats["oversize-refused" if n > lim.hi
+                    else "refused-between-repeated-miux"] += 1
+            return
+        raise unexpected(err, oracle="sendto-error")
+    if n > lim.hi:
+        raise Violation("oversize-accepted", "sendto of %d byte accepted, "
+                        "the peer's general bytes announce a Link MIU of %d"
+                        % (n, lim.hi))
+    if ok is not True:
+        raise Violation("sendto-returned-false", repr(ok))
+    w.stats["ui-queued"] += 1
+    w.last = 2 + n
+
+
+def solo_send(w, i, kind, val):
+    c = w.live(i)
+    if c is None:
+        return
+    lim = c["lim"]
+    n = size_for(kind, val, lim.hi, w.fit(3))
+    # the connection MIU cannot be used beyond the Link MIU
+    sure = min(lim.lo, w.link.lo)
+    try:
+        ok = c["sock"].send(bytes([val & 255]) * n, nfc.llcp.MSG_DONTWAIT)
+    except nfc.llcp.Error as err:
+        if err.errno == E.EMSGSIZE and n > sure:
+            w.stats["oversize-refused" if n > lim.hi
+                    else "refused-above-link-miu"] += 1
+            return
+        if err.errno == E.EWOULDBLOCK:
+            # the send window is closed (which error comes first when the
+            # message is too long as well is not specified)
+            w.stats["send-wouldblock"] += 1
+            return
+        if err.errno in (E.EPIPE, E.ENOTCONN, E.ESHUTDOWN):
+            c["dead"] = True
+            return
+        raise unexpected(err, oracle="send-error")
+    if n > lim.hi:
+        raise Violation("oversize-accepted", "send of %d byte accepted, the "
+                        "peer's %s announced a connection MIU of %d"
+                        % (n, c["pos"], lim.hi))
+    if ok is True:
+        w.stats["i-queued"] += 1
+        w.last = 3 + n
+
+
+def solo_ack(w, i):
+    """the peer acknowledges every I PDU it was sent"""
+    c = w.live(i)
+    if c is None or c["rw_local"] is None:
+        return
+    solo_inject(w, frame_octets(13, c["l"], c["r"], bytes([c["sent"] % 16])))
+    w.stats["peer-acks"] += 1
+
+
+def solo_peer_i(w, i, n, recv):
+    """the peer sends n byte on the connection (within the MIU and the
+    window the local side announced); the application reads it or not"""
+    c = w.live(i)
+    if c is None or c["rw_local"] is None:
+        return
+    if (c["peer_ns"] - c["nr_local"]) % 16 >= c["rw_local"]:
+        w.stats["peer-window-closed"] += 1
+        return
+    n = min(n, c["miu_local"], w.llc.cfg["recv-miu"])
+    seq = (c["peer_ns"] % 16) << 4 | c["sent"] % 16
+    solo_inject(w, frame_octets(12, c["l"], c["r"], bytes([seq]) + b"p" * n))
+    c["peer_ns"] += 1
+    w.stats["peer-data"] += 1
+    if recv:
+        s = c["sock"]
+        try:
+            while s.poll("recv", 0):
+                if s.recv() is None:
+                    c["dead"] = True
+                    return
+        except nfc.llcp.Error:
+            c["dead"] = True
+
+
+def solo_snl(w, n, nlen, first_tid):
+    """the peer asks for n service names at once (as many as the local MIU
+    admits)"""
+    name = ("urn:nfc:sn:" + "q" * 60)[:max(1, nlen)].encode()
+    known = w.listener["name"].encode() \
+        if w.listener and w.listener["name"] else None
+    info, k = b"", 0
+    while k < n:
+        nm = known if known and k % 3 == 0 else name
+        tlv = bytes([8, 1 + len(nm), (first_tid + k) % 256]) + nm
+        if len(info) + len(tlv) > w.llc.cfg["recv-miu"]:
+            break
+        info += tlv
+        k += 1
+    solo_inject(w, frame_octets(9, 1, 1, info))
+    w.stats["sdreq-injected"] += k
+
+
+def solo_resolve(w, k, nlen):
+    if sum(1 for b in w.boxes if not b.done and b.name == "resolve") >= 8:
+        return
+    s = w.ldl[0] if w.ldl else nfc.llcp.Socket(w.llc, LOGICAL_DATA_LINK)
+    for j in range(k):
+        name = ("urn:nfc:sn:r%d-" % j + "x" * 60)[:max(13, nlen)]
+        w.call(lambda name=name: s.resolve(name), "resolve")
+    w.stats["resolve-calls"] += k
+
+
+class Once(object):
+    def __init__(self, ctx):
+        self.ctx, self.seen = ctx, set()
+
+    def label(self, name):
+        if name not in self.seen:
+            self.seen.add(name)
+            self.ctx.label(name)
+
+
+def describe_octets(w, case):
+    """labels for what the peer put on the wire (each once per case)"""
+    ctx = Once(w.ctx)
+    strings = [("gb", case["gb"])] + [(c["pos"], c["tlvs"])
+                                      for c in case["conns"]]
+    for pos, tlvs in strings:
+        seen = {}
+        for t, v in tlvs:
+            seen.setdefault(t, []).append(bytes(v))
+            if t == T_MIUX and v[0] & 0xF8:
+                ctx.label("reserved-bits:miux@" + pos)
+            elif t == T_RW and v[0] & 0xF0:
+                ctx.label("reserved-bits:rw")
+            elif t == T_OPT and v[0] & 0xF8:
+                ctx.label("reserved-bits:opt")
+            elif t > 11 or t == 0:
+                ctx.label("unknown-tlv@" + pos)
+            elif t not in ((T_VERSION, T_MIUX, T_WKS, T_LTO, T_OPT)
+                           if pos == "gb" else (T_MIUX, T_RW, T_SN)):
+                ctx.label("foreign-tlv@" + pos)
+        if T_MIUX not in seen:
+            ctx.label("no-miux-tlv@" + pos)
+        elif len(seen[T_MIUX]) > 1:
+            ctx.label("repeated-miux@" + pos)
+        if any(len(v) > 1 for t, v in seen.items() if t != T_MIUX):
+            ctx.label("repeated-other-tlv")
+    if w.link.hi != w.link.lo or any(c["lim"].hi != c["lim"].lo
+                                     for c in w.conns):
+        ctx.label("repeated-miux-numbers-differ")
+
+
+def run_octets(case, ctx):
+    ctx.set_class("octets")
+    gb = tlv_octets(case["gb"])
+    if len(gb) > GB_MAX or any(len(tlv_octets(c["tlvs"])) > TLV_MAX
+                               for c in case["conns"]):
+        raise HarnessError("parameter string longer than the peer can send")
+    w = Solo(case, ctx)
+    try:
+        w.link = Limit(gb)
+        try:
+            up = w.llc.activate(stub_mac(case["role"], b"Ffm" + gb))
+        except Exception as e:
+            raise unexpected(e, detail="activate(), general bytes %s"
+                             % gb.hex())
+        if up is not True:
+            # what a link controller accepts is not this property's subject
+            ctx.label("activation-refused")
+            return
+        w.llc.link.ESTABLISHED = True       # as the run loop does
+        if any(c["pos"] == "CONNECT" for c in case["conns"]):
+            solo_listen(w, case["listen"])
+        for spec in case["conns"]:
+            if spec["pos"] == "CONNECT":
+                solo_inbound(w, spec)
+            else:
+                solo_outbound(w, spec)
+        for op in case["ops"]:
+            name = op[0]
+            if name == "x":
+                solo_x(w)
+            elif name == "sendto":
+                solo_sendto(w, *op[1:])
+            elif name == "send":
+                solo_send(w, *op[1:])
+            elif name == "ack":
+                solo_ack(w, *op[1:])
+            elif name == "peer-i":
+                solo_peer_i(w, *op[1:])
+            elif name == "snl":
+                solo_snl(w, *op[1:])
+            elif name == "resolve":
+                solo_resolve(w, *op[1:])
+            else:
+                raise HarnessError("unknown op %r" % (op,))
+            solo_check(w)
+        idle = 0
+        for _ in range(300):
+            idle = 0 if solo_x(w) is not None else idle + 1
+            if idle >= 2:
+                break
+        else:
+            w.stats["flush-not-quiescent"] += 1
+        st_ = w.stats
+        describe_octets(w, case)
+        ctx.label("role:" + case["role"])
+        for k in sorted(st_):
+            if k.startswith("pdu:") or k in (
+                    "agf>=2", "near-miu", "exactly-miu", "sdres>=30",
+                    "i-near-connection-miu", "i-exactly-connection-miu",
+                    "oversize-refused", "refused-between-repeated-miux",
+                    "refused-above-link-miu", "send-wouldblock",
+                    "connections", "connect-failed", "connect-not-sent",
+                    "inbound-not-accepted", "connection-ended",
+                    "peer-window-closed", "peer-data", "peer-acks",
+                    "i-unknown-connection", "flush-not-quiescent"):
+                ctx.label(k)
+        if st_["near-miu"] or st_["i-near-connection-miu"]:
+            ctx.nontrivial()
+        ctx.note({"link_miu": w.link.hi, "connection_miu":
+                  [c["lim"].hi for c in w.conns], "frames": st_["frames"],
+                  "near_miu": st_["near-miu"], "i_near_connection_miu":
+                  st_["i-near-connection-miu"], "agf>=2": st_["agf>=2"]})
+    finally:
+        w.close()
+
+
+# fixed probes of the exhaustive leg: sizes are relative to the announced
+# limit (size_for): one octet too many, exactly the limit, halves that
+# aggregate, what the PDU before leaves in the frame; SDRES and SDREQ batches
+PROBE_LINK = [
+    ["sendto", 0, 3, 0, 15], ["sendto", 0, 1, 85, 15], ["x"],
+    ["sendto", 0, 5, 3, 15], ["sendto", 1, 5, 9, 16], ["sendto", 0, 5, 0, 15],
+    ["x"], ["x"],
+    ["sendto", 0, 4, 7, 15], ["sendto", 1, 6, 1, 16], ["x"],
+    ["snl", 40, 1, 0], ["snl", 40, 1, 40], ["x"], ["x"], ["x"],
+    ["resolve", 3, 40], ["sendto", 0, 2, 5, 15], ["x"], ["x"],
+]
+PROBE_CONN = [
+    ["send", 0, 3, 0], ["send", 0, 1, 1], ["x"], ["x"], ["ack", 0],
+    ["send", 0, 5, 3], ["send", 0, 6, 1], ["sendto", 0, 4, 7, 15], ["x"],
+    ["x"], ["ack", 0], ["peer-i", 0, 3, True], ["send", 0, 2, 4], ["x"],
+    ["sendto", 0, 5, 2, 15], ["send", 0, 6, 2], ["x"], ["ack", 0],
+]
+CLEAN_GB = [[T_VERSION, b"\x13"], [T_MIUX, b"\x07\xff"], [T_WKS, b"\x00\x03"]]
+
+
+def announce_case(pos, number, reserved, agf):
+    miux = [T_MIUX, struct.pack(">H", reserved << 11 | number)]
+    case = {"role": "target" if pos == "gbt" else "initiator", "miu": 248,
+            "agf": agf, "listen": {"name": None, "rw": 2, "smiu": 200}}
+    if pos in ("gbi", "gbt"):
+        case.update(gb=[CLEAN_GB[0], miux, CLEAN_GB[2]], conns=[],
+                    ops=PROBE_LINK)
+    else:
+        case.update(gb=CLEAN_GB, ops=PROBE_CONN, conns=[{
+            "pos": pos, "tlvs": [miux, [T_RW, b"\x04"]], "rsap": 20,
+            "byname": False, "rw": 2, "smiu": 200}])
+    return case
+
+
+def enum_announce(tier, seed):
+    numbers = [0, 1, 2, 3, 5, 120, 0x3FF, 0x400, 0x7FE, 0x7FF]
+    if tier == "thorough":
+        numbers = sorted(set(numbers) | set(range(0, 0x800, 37)))
+    for pos in ("gbi", "gbt", "CONNECT", "CC"):
+        for number in numbers:
+            for reserved in range(32):
+                for agf in (False, True):
+                    yield announce_case(pos, number, reserved, agf)
+
+
+# generated parameter strings
+number_ = st.one_of(st.sampled_from([0, 1, 2, 3, 5, 120, 0x3FF, 0x400, 0x7FE,
+                                     0x7FF]),
+                    st.integers(0, 40), st.integers(0, 0x7FF))
+res5_ = st.one_of(st.just(0), st.integers(0, 31),
+                  st.sampled_from([1, 2, 4, 8, 16]))
+res4_ = st.one_of(st.just(0), st.integers(0, 15))
+t_miux = st.builds(lambda n, r: [T_MIUX, struct.pack(">H", r << 11 | n)],
+                   number_, res5_)
+t_rw = st.builds(lambda n, r: [T_RW, bytes([r << 4 | n])],
+                 st.one_of(st.integers(0, 15), st.sampled_from([2, 4, 15])),
+                 res4_)
+t_version = st.builds(lambda m: [T_VERSION, bytes([0x10 | m])],
+                      st.one_of(st.integers(0, 3), st.integers(0, 15)))
+t_wks = st.builds(lambda v: [T_WKS, struct.pack(">H", v | 1)],
+                  st.integers(0, 0xFFFF))
+t_lto = st.builds(lambda v: [T_LTO, bytes([v])], st.integers(1, 255))
+t_opt = st.builds(lambda v, r: [T_OPT, bytes([r << 3 | v])],
+                  st.integers(0, 7), st.one_of(st.just(0), st.integers(0, 31)))
+t_unknown = st.builds(lambda t, v: [t, v],
+                      st.one_of(st.just(0), st.integers(12, 255)),
+                      st.binary(max_size=5))
+FOREIGN = {"gb": [5, 6, 8, 9, 10, 11], "CONNECT": [1, 3, 4, 7, 8, 9, 10, 11],
+           "CC": [1, 3, 4, 6, 7, 8, 9, 10, 11]}
+
+
+@st.composite
+def t_foreign(draw, pos):
+    """a TLV the specification defines, but not for this PDU (well-formed:
+    with the length its type demands)"""
+    t = draw(st.sampled_from(FOREIGN[pos]))
+    ln = ref.FIXED_LEN.get(t)
+    if ln is None:
+        ln = draw(st.integers(1, 4))
+    return [t, draw(st.binary(min_size=ln, max_size=ln))]
+
+
+@st.composite
+def param_string(draw, pos, sn=None):
+    own = []
+    if pos == "gb":
+        own.append(draw(t_version))
+        for s in (t_wks, t_lto, t_opt):
+            if draw(st.booleans()):
+                own.append(draw(s))
+        kinds = [t_version, t_wks, t_lto, t_opt]
+    else:
+        if draw(st.integers(0, 3)):
+            own.append(draw(t_rw))
+        kinds = [t_rw]
+    if draw(st.integers(0, 7)):
+        own.append(draw(t_miux))
+    for _ in range(draw(st.sampled_from([0, 0, 0, 1, 1, 2]))):
+        how = draw(st.sampled_from(["miux", "miux-same", "other"]))
+        prev = [v for t, v in own if t == T_MIUX]
+        if how == "miux-same" and prev:
+            # the same number again, other reserved bits
+            n = struct.unpack(">H", prev[-1])[0] & 0x7FF
+            own.append([T_MIUX, struct.pack(">H", draw(res5_) << 11 | n)])
+        elif how == "other":
+            own.append(draw(draw(st.sampled_from(kinds))))
+        else:
+            own.append(draw(t_miux))
+    for _ in range(draw(st.sampled_from([0, 0, 1, 1, 2, 3]))):
+        own.append(draw(st.one_of(t_unknown, t_foreign(pos))))
+    if sn is not None:
+        own.append([T_SN, sn])
+    out = list(draw(st.permutations(own)))
+    room = GB_MAX if pos == "gb" else TLV_MAX
+    while len(tlv_octets(out)) > room:
+        out.pop(next((k for k in range(len(out) - 1, -1, -1)
+                      if out[k][0] != T_SN), 0))
+    return [[t, bytes(v)] for t, v in out]
+
+
+skind_ = st.sampled_from([1, 1, 2, 2, 2, 3, 3, 5, 5, 6, 6, 4, 0])
+
+
+@st.composite
+def octets_case(draw, max_ops):
+    name = draw(st.one_of(st.none(), idx_))
+    case = {"role": draw(st.sampled_from(["initiator", "target"])),
+            "miu": draw(st.one_of(st.just(128), st.just(248), link_miu())),
+            "agf": draw(st.sampled_from([True, True, False])),
+            "gb": draw(param_string("gb")),
+            "listen": {"name": name, "rw": draw(rw_), "smiu": draw(smiu_)}}
+    conns, used = [], set()
+    for k in range(draw(st.sampled_from([0, 1, 1, 2, 2, 3]))):
+        pos = draw(st.sampled_from(["CONNECT", "CC"]))
+        rsap = draw(st.integers(2, 63).filter(lambda a: a not in used))
+        used.add(rsap)
+        if pos == "CONNECT":
+            sn = NAMES[name % len(NAMES)].encode() \
+                if name is not None and draw(st.booleans()) else None
+            conns.append({"pos": pos, "rsap": rsap,
+                          "tlvs": draw(param_string(pos, sn))})
+        else:
+            conns.append({"pos": pos, "rsap": rsap,
+                          "tlvs": draw(param_string(pos)),
+                          "byname": draw(st.booleans()),
+                          "rw": draw(rw_), "smiu": draw(smiu_)})
+    case["conns"] = conns
+    ops = {
+        "x": st.tuples(st.just("x")),
+        "sendto": st.tuples(st.just("sendto"), st.integers(0, 2), skind_,
+                            val_, st.integers(0, 61)),
+        "send": st.tuples(st.just("send"), idx_, skind_, val_),
+        "ack": st.tuples(st.just("ack"), idx_),
+        "peer-i": st.tuples(st.just("peer-i"), idx_, st.integers(0, 140),
+                            st.booleans()),
+        "snl": st.tuples(st.just("snl"),
+                         st.one_of(st.integers(1, 70), st.integers(25, 70)),
+                         st.integers(1, 30), st.integers(0, 255)),
+        "resolve": st.tuples(st.just("resolve"), st.integers(1, 4),
+                             st.integers(13, 60)),
+    }
+    weights = ["x"] * 5 + ["sendto"] * 6 + ["snl"] * 2 + ["resolve"]
+    if conns:
+        weights += ["send"] * 7 + ["ack"] * 3 + ["peer-i"] * 2
+    case["ops"] = [list(draw(ops[draw(st.sampled_from(weights))]))
+                   for _ in range(draw(st.integers(3, max_ops)))]
+    return case
+
+
 LEGS = [
     Leg("machine", run=run_machine,
         gen=lambda tier: machine_case(40 if tier == "quick" else 60),
@@ -967,4 +1688,38 @@ LEGS = [
              "evaluations); quick: 64 seeded MIUs x backlogs around 0, "
              "1x and 2x the frame capacity and 600; non-trivial = a frame "
              "within 8 byte of the MIU."),
+    Leg("announce", run=run_octets, enum=enum_announce, exhaustive=True,
+        shards_quick=4, shards_thorough=16,
+        rule="one controller, activated through LogicalLinkController."
+             "activate() as NFC-DEP Initiator / Target, against a peer made "
+             "of octets: the MIUX TLV sits in the peer's general bytes "
+             "(both roles), in its CONNECT PDU (accept() at the local side) "
+             "or in its CC PDU (connect() at the local side); every one of "
+             "the 32 settings of the five reserved bits x 11 bit numbers 0, "
+             "1, 2, 3, 5, 120, 3FFh, 400h, 7FEh, 7FFh (thorough: also every "
+             "37th number) x aggregation on/off; a fixed probe queues one "
+             "octet more than the announced MIU, exactly the MIU, halves "
+             "that aggregate, SDRES / SDREQ batches, and acknowledged I PDUs "
+             "around the connection MIU; the announced MIU is 128 + (value "
+             "& 7FFh) as read by vlib/ref_llcp; non-trivial = a frame within "
+             "8 byte of the announced Link MIU or an I PDU payload within 8 "
+             "byte of the announced connection MIU."),
+    Leg("octets", run=run_octets,
+        gen=lambda tier: octets_case(14 if tier == "quick" else 24),
+        quick=900, thorough=12000, shards_quick=6, shards_thorough=16,
+        nt_floor=0.2,
+        rule="as announce, with drawn parameter strings in all positions "
+             "at once: general bytes (VERSION 1.0..1.15, MIUX, WKS, LTO, OPT) "
+             "and 0..3 connections whose limit comes with the peer's CONNECT "
+             "(by address or by name) or CC octets (MIUX, RW); reserved bits "
+             "of MIUX / RW / OPT drawn, 0..3 TLVs of unknown type or of a "
+             "type defined for other PDUs interleaved, 0..2 TLVs repeated "
+             "(same MIUX number with other reserved bits, or another number: "
+             "then the largest announced number is the limit), any order, "
+             "MIUX TLV absent in 1 of 8 (default 128); local MIU 128..2175, "
+             "aggregation on/off; then 3..14 (quick) / 3..24 (thorough) of "
+             "sendto / send sized around the announced limits, exchanges, "
+             "peer acknowledgements, peer I PDUs, SDREQ batches from the "
+             "peer, resolve() calls; every frame of every exchange and of "
+             "the final flush is judged; non-trivial as for announce."),
 ]
